@@ -261,6 +261,33 @@ template<size_t L> std::string run(const std::vector<std::string>& w)
                                 if (D) { std::string q; for (auto it = s.rbegin(); it != s.rend(); ++it) q += *it; rS = vf::hex(q); } }
          else if (n == "citr") { std::string r; for (auto it = f.crbegin(); it != f.crend(); it++) r += *it; rF = vf::hex(r);
                                  if (D) { std::string q; for (auto it = s.crbegin(); it != s.crend(); it++) q += *it; rS = vf::hex(q); } }
+         // ---------------- iterator stepping: it|rit : pos : inc|dec|add|sub : value
+         else if (n == "it" || n == "rit")
+         {
+            const size_t pos = num(a[1]), v = num(a[3]);
+            const std::string& kd = a[2];
+            const bool rev = n == "rit";
+            // position of the std iterator as offset from begin() / rbegin(); end = len
+            const size_t off = pos >= len ? len : (rev ? len - 1 - pos : pos);
+            if (D)
+            {
+               size_t noff = 0;
+               if (kd == "inc") { REQ(off < len); noff = off + 1; }
+               else if (kd == "dec") { REQ(off > 0); noff = off - 1; }
+               else if (kd == "add") { REQ(v <= len - off); noff = off + v; }
+               else { REQ(v <= off); noff = off - v; }
+               if (rev) { auto it = s.rbegin() + off; if (kd == "inc") ++it; else if (kd == "dec") --it; else if (kd == "add") it += v; else it -= v;
+                          const size_t r = it - s.rbegin(); if (r != noff) return std::string("harness-error"); rS = (r == len) ? "end" : std::to_string(len - 1 - r) + "," + hexc(*it); }
+               else { auto it = s.begin() + off; if (kd == "inc") ++it; else if (kd == "dec") --it; else if (kd == "add") it += v; else it -= v;
+                      const size_t r = it - s.begin(); if (r != noff) return std::string("harness-error"); rS = (r == len) ? "end" : std::to_string(r) + "," + hexc(*it); }
+            }
+            size_t idx; std::string dr;
+            if (rev) { typename FS::reverse_iterator it(&f, pos); if (kd == "inc") ++it; else if (kd == "dec") --it; else if (kd == "add") it += v; else it -= v;
+                       idx = it.mIndex; try { dr = hexc(*it); } catch (const std::range_error&) { dr = "E"; } }
+            else { typename FS::iterator it(&f, pos); if (kd == "inc") ++it; else if (kd == "dec") --it; else if (kd == "add") it += v; else it -= v;
+                   idx = it.mIndex; try { dr = hexc(*it); } catch (const std::range_error&) { dr = "E"; } }
+            rF = (idx == NPOS) ? std::string("end") : std::to_string(idx) + "," + dr;
+         }
          // ---------------- find family: <fam>_<overload>
          else if (n.size() > 2 && n[0] == 'F')
          {
